@@ -8,6 +8,10 @@ Streams
             INSTALLED in a rig handler and driven with the matching line/call events (3 hits each, scripted clock):
             snapshot pushed / log emitted / metric call / span opened are observed per tracepoint id and per place;
   register  the same tracepoints registered in code (TracepointConfigService.add_custom) and driven the same way.
+  both      one tracepoint through BOTH paths (convert_response of its protobuf message / add_custom): the same trigger;
+  providers ONE tracepoint with 2-4 metric definitions, installed (from a response or registered) beside 2-3 recording
+            metric providers, some of which RAISE for some definitions (the first, a middle one, the last, several):
+            "one metric per metric definition" is judged per (definition, provider) pair.
 The oracle is the table of the property statement written here in Python (spec_trigger / expected effects), it does
 not call the model.
 """
@@ -33,8 +37,12 @@ RULE = ('table: every combination of stage{absent,6 stages,unknown} x method_nam
         'response/register: 1-7 tracepoints over 2 files x 3 lines x 2 methods (so locations collide), own condition '
         '(true/false/raising/absent), fire_count, fire_period, watches, 0-2 metric definitions with static/expression '
         'labels, unknown stages mixed in; installed and driven 3 times per place with a scripted clock. Non-trivial = '
-        'two tracepoints share a location or an uninterpretable tracepoint sits next to interpretable ones. Distinct = '
-        'distinct canonical JSON of the case.')
+        'two tracepoints share a location or an uninterpretable tracepoint sits next to interpretable ones. both: one '
+        'tracepoint from a response and registered in code must give the same trigger (theorem c11_registered_as_service). providers: one '
+        'tracepoint with 2-4 metric definitions and 2-3 metric providers of which 0-2 raise for 1-2 definitions each '
+        '(first / middle / last), from a response or registered, driven once or twice: every (definition, provider) '
+        'pair must be called exactly once per collection, the raising call included; non-trivial = some provider '
+        'raises for a definition that is not the last. Distinct = distinct canonical JSON of the case.')
 TRUSTED = ['protobuf runtime: a TracePointConfig built from the case, serialised and parsed (what convert_response is '
            'given), reads back the same args/watches/metrics',
            'rig.MockFrame events stand for CPython line/call events (location matching itself is C03)']
@@ -507,8 +515,94 @@ def run_register(case):
         rig.close()
 
 
+def run_providers(case):
+    """one tracepoint with several metric definitions, several metric providers, some calls raising"""
+    import deep.grpc as g
+    from deep.api.plugin.metric import MetricProcessor
+    fail = {(p, m) for p, m in case['fail']}
+    names = [m['name'] for m in case['tp']['metrics']]
+
+    class Provider(MetricProcessor):
+        def __init__(self, idx):
+            super().__init__(name='provider%d' % idx)
+            self.idx, self.attempts, self.done = idx, [], []
+
+        def _call(self, op, name, *a):
+            self.attempts.append([op, name])
+            if name in names and (self.idx, names.index(name)) in fail:
+                raise ValueError('Duplicated timeseries in CollectorRegistry: %s' % name)
+            self.done.append([op, name])
+
+        def counter(self, name, *a): self._call('counter', name, *a)
+        def gauge(self, name, *a): self._call('gauge', name, *a)
+        def histogram(self, name, *a): self._call('histogram', name, *a)
+        def summary(self, name, *a): self._call('summary', name, *a)
+
+    provs = [Provider(i) for i in range(case['providers'])]
+    rig = ClockedRig(plugins=provs)
+    try:
+        svc = rig.config.tracepoints
+        svc.set_task_handler(Inline())
+        tp = case['tp']
+        try:
+            if case['via'] == 'register':
+                svc.add_custom(fresh(tp['path']), tp['line'], fresh(tp['args']), fresh(tp['watches']),
+                               real_metrics(tp['metrics']))
+            else:
+                svc.update_new_config(1, 'h1', g.convert_response([proto_tp(tp)]))
+        except Exception as e:  # noqa: B902
+            return {'raised': f'install: {type(e).__name__}: {e}'}
+        obs = {}
+        try:
+            for ts in case['tss']:
+                rig.clock = ts
+                frame, event = frame_for(['line', tp['path'], tp['line']], {'x': 5, 'y': [1, 2]})
+                rig.handler.trace_call(frame, event, None)
+        except BaseException as e:  # noqa: B902
+            obs['raised'] = f'trace_call: {type(e).__name__}: {e}'
+        obs['attempts'] = [p.attempts for p in provs]
+        obs['done'] = [p.done for p in provs]
+        obs['snaps'] = len(rig.push.pushed)
+        return obs
+    finally:
+        rig.close()
+
+
+def run_both(case):
+    """the same tracepoint once from a poll response, once registered in code"""
+    import deep.grpc as g
+    tp = case['tp']
+    rig = ClockedRig()
+    try:
+        svc = rig.config.tracepoints
+        svc.set_task_handler(Inline())
+        obs = {}
+        try:
+            obs['service'] = [dump_trigger(t) for t in g.convert_response([proto_tp(tp)])]
+        except Exception as e:  # noqa: B902
+            obs['service'] = {'raised': f'{type(e).__name__}: {e}'}
+        try:
+            rid = svc.add_custom(fresh(tp['path']), tp['line'], fresh(tp['args']), fresh(tp['watches']),
+                                 real_metrics(tp['metrics']))
+            code = [dump_trigger(t) for t in list(svc._custom)]
+            for d in code:
+                for a in (d or {}).get('actions', []):
+                    if a['id'] == rid:
+                        a['id'] = tp['id']
+            obs['code'] = code
+        except Exception as e:  # noqa: B902
+            obs['code'] = {'raised': f'{type(e).__name__}: {e}'}
+        return obs
+    finally:
+        rig.close()
+
+
 def run_impl(case):
     k = case['kind']
+    if k == 'both':
+        return run_both(case)
+    if k == 'providers':
+        return run_providers(case)
     if k == 'table':
         return run_table(case)
     if k == 'build':
@@ -550,9 +644,55 @@ def table_tp(case, idx):
             'metrics': ONE_METRIC if case['metrics'] else []}
 
 
+def oracle_providers(case, obs):
+    v = []
+    if 'attempts' not in obs:
+        return ['the tracepoint was not installed: ' + obs.get('raised', '?')]
+    if 'raised' in obs:
+        v.append('handler raised into the host: ' + obs['raised'])
+    tp = case['tp']
+    fires = limiter(tp['args'].get('fire_count', '1'), tp['args'].get('fire_period', '1000'), case['tss'])
+    ops = ['counter', 'gauge', 'histogram', 'summary']
+    fail = {(p, m) for p, m in case['fail']}
+    for p in range(case['providers']):
+        for mi, m in enumerate(tp['metrics']):
+            call = [ops[m['type']], m['name']]
+            n_att, n_done = obs['attempts'][p].count(call), obs['done'][p].count(call)
+            want_done = 0 if (p, mi) in fail else fires
+            if n_att != fires or n_done != want_done:
+                failing = sorted(tp['metrics'][j]['name'] for q, j in fail if q == p)
+                v.append(f'metric definition {mi} of {len(tp["metrics"])} ({call[1]}, {call[0]}): provider {p} was called '
+                         f'{n_att} time(s), {n_done} completed; one metric per definition asks for {fires} call(s) '
+                         f'({want_done} completing) — provider {p} raises for {failing or "nothing"} only')
+        extra = [c for c in obs['attempts'][p] if c not in [[ops[m['type']], m['name']] for m in tp['metrics']]]
+        if extra:
+            v.append(f'provider {p} received calls no definition asks for: {extra[:3]}')
+    if obs.get('snaps') != (fires if tp['args'].get('snapshot') != 'no_collect' else 0):
+        v.append(f'{obs.get("snaps")} snapshots, the arguments ask for '
+                 f'{fires if tp["args"].get("snapshot") != "no_collect" else 0}')
+    return v[:8]
+
+
 def oracle(case, obs):
     k = case['kind']
     v = []
+    if k == 'providers':
+        return oracle_providers(case, obs)
+    if k == 'both':
+        exp = spec_trigger(case['tp'])
+        for path in ('service', 'code'):
+            got = obs[path]
+            if isinstance(got, dict):
+                v.append(f'{path} path raised: {got["raised"]}')
+            elif exp is None:
+                if got:
+                    v.append(f'{path} path installed an uninterpretable tracepoint: {json.dumps(got)[:200]}')
+            elif len(got) != 1:
+                v.append(f'{path} path installed {len(got)} triggers for one tracepoint')
+            else:
+                v += diff_trigger(got[0], exp, 'tracepoint %s' % ('from the service' if path == 'service' else
+                                                                   'registered in code'))[:3]
+        return v
     if k == 'table':
         for i, row in enumerate(obs['rows']):
             tp = table_tp(case, case['lo'] + i)
@@ -646,6 +786,10 @@ def model_request(case, obs):
                 'line': 7, 'args': {}, 'watches': case['watches'], 'metrics': ONE_METRIC if case['metrics'] else []}
     if k == 'build':
         return dict(case['tp'], op='build')
+    if k == 'both':
+        return dict(case['tp'], op='build')
+    if k == 'providers':
+        return None          # what a provider receives is C17's model; here the statement is judged on the real code
     if k == 'register':
         custom = [i for i in range(len(case['tps'])) if i not in case.get('service', [])]
         lives = [custom] + [[i for i in live_after(case, p) if i in custom]
@@ -658,6 +802,10 @@ def compare(case, obs, resp):
     if 'error' in resp:
         return ['model error: ' + resp['error']]
     k = case['kind']
+    if k == 'both':
+        want = [] if resp['trigger'] is None else [resp['trigger']]
+        return [f'{path} path: implementation {json.dumps(obs[path], sort_keys=True)[:300]} model '
+                f'{json.dumps(want, sort_keys=True)[:300]}' for path in ('service', 'code') if obs[path] != want]
     if k == 'table':
         d = []
         for i, (a, b) in enumerate(zip(obs['rows'], resp['rows'])):
@@ -843,11 +991,45 @@ def table_cases():
             yield {'kind': 'table', 'lo': lo, 'hi': lo + CHUNK, 'metrics': metrics, 'watches': ['x'] if metrics else []}
 
 
+def gen_providers(rng):
+    n_m = rng.choice([2, 2, 3, 3, 4])
+    n_p = rng.choice([2, 2, 3])
+    args = {}
+    if rng.random() < 0.5:
+        args['snapshot'] = 'no_collect'
+    r = rng.random()
+    if r < 0.4:
+        args['fire_count'], args['fire_period'] = '2', '0'
+    elif r < 0.6:
+        args['fire_count'], args['fire_period'] = '-1', '0'
+    tp = {'id': 'tp0', 'path': 'host.py', 'line': 7, 'args': args, 'watches': [],
+          'metrics': [gen_metric(rng, 'm_0_%d' % j) for j in range(n_m)]}
+    fail = set()
+    for p in rng.sample(range(n_p), rng.choice([0, 1, 1, 1, 2])):
+        where = rng.choice(['first', 'first', 'middle', 'last', 'two'])
+        if where == 'first':
+            fail.add((p, 0))
+        elif where == 'last':
+            fail.add((p, n_m - 1))
+        elif where == 'middle':
+            fail.add((p, rng.randrange(0, n_m - 1)))
+        else:
+            fail.update((p, j) for j in rng.sample(range(n_m), 2))
+    return {'kind': 'providers', 'tp': tp, 'providers': n_p, 'fail': sorted(list(f) for f in fail),
+            'via': rng.choice(['response', 'register']), 'tss': [1000, 2000, 3000][:rng.choice([1, 2, 3])]}
+
+
 def gen(rng, tier):
     yield from table_cases()
     while True:
         r = rng.random()
-        if r < 0.55:
+        if r < 0.06:
+            tp, _ = gen_tp(rng, 0)
+            tp['args'].pop('condition', None)
+            yield {'kind': 'both', 'tp': tp}
+        elif r < 0.16:
+            yield gen_providers(rng)
+        elif r < 0.55:
             yield gen_list(rng, 'response')
         elif r < 0.78:
             yield gen_list(rng, 'register')
@@ -896,12 +1078,28 @@ def corpus():
         finish_case(rng, 'register', [_tp(1, 'host.py', 12, {'stage': 'method_end', 'span': 'method'}), good],
                     [None, None]),
         finish_case(rng, 'register', two, [None, 'true', 'false']),
+        # seeded C11-J: a provider that raises for the FIRST of three definitions must still get the other two
+        {'kind': 'providers', 'via': 'response', 'providers': 2, 'fail': [[0, 0]], 'tss': [1000],
+         'tp': _tp(0, 'host.py', 7, {}, [], [dict(ONE_METRIC[0], name='m_0_0', type=0),
+                                             dict(ONE_METRIC[0], name='m_0_1', type=1, expression='x'),
+                                             dict(ONE_METRIC[0], name='m_0_2', type=2)])},
+        {'kind': 'providers', 'via': 'register', 'providers': 3, 'fail': [[1, 1], [2, 0]], 'tss': [1000, 2000],
+         'tp': _tp(0, 'host.py', 7, {'snapshot': 'no_collect', 'fire_count': '2', 'fire_period': '0'}, [],
+                   [dict(ONE_METRIC[0], name='m_0_0', type=3), dict(ONE_METRIC[0], name='m_0_1', type=1),
+                    dict(ONE_METRIC[0], name='m_0_2', type=0)])},
     ]
 
 
 # ------------------------------------------------------------------------------------- bookkeeping
 def label(case, obs):
     k = case['kind']
+    if k == 'both':
+        return 'both/' + ('uninterpretable' if spec_trigger(case['tp']) is None else
+                          '%d-actions' % len(spec_actions(case['tp'])))
+    if k == 'providers':
+        n_m = len(case['tp']['metrics'])
+        return 'providers/%s/%s' % (case['via'], 'nofault' if not case['fail'] else
+                                    'fault-not-last' if any(m < n_m - 1 for _, m in case['fail']) else 'fault-last')
     if k == 'table':
         return 'table/' + ('metric' if case['metrics'] else 'plain')
     if k == 'build':
@@ -920,7 +1118,9 @@ def label(case, obs):
 
 
 def nontrivial(case, obs):
-    if case['kind'] in ('table', 'build'):
+    if case['kind'] == 'providers':
+        return any(m < len(case['tp']['metrics']) - 1 for _, m in case['fail'])
+    if case['kind'] in ('table', 'build', 'both'):
         return False
     specs = [spec_trigger(tp) for tp in case['tps']]
     ids = [s['id'] for s in specs if s is not None]
@@ -929,6 +1129,22 @@ def nontrivial(case, obs):
 
 def shrink(case):
     k = case['kind']
+    if k == 'both':
+        tp = case['tp']
+        for key in list(tp['args']):
+            yield {'kind': 'both', 'tp': dict(tp, args={a: b for a, b in tp['args'].items() if a != key})}
+        if tp['metrics']:
+            yield {'kind': 'both', 'tp': dict(tp, metrics=[])}
+        return
+    if k == 'providers':
+        for j in range(len(case['fail'])):
+            yield dict(case, fail=case['fail'][:j] + case['fail'][j + 1:])
+        if len(case['tss']) > 1:
+            yield dict(case, tss=case['tss'][:-1])
+        ms = case['tp']['metrics']
+        if len(ms) > 2 and all(m < len(ms) - 1 for _, m in case['fail']):
+            yield dict(case, tp=dict(case['tp'], metrics=ms[:-1]))
+        return
     if k == 'table':
         for idx in range(case['lo'], case['hi']):
             yield {'kind': 'build', 'tp': table_tp(case, idx)}
